@@ -1,21 +1,21 @@
 SPECIFICATION Spec
 CONSTANTS
   Kinds <- KindsXf
-  CleanupIds = {"c1", "c2"}
+  CleanupIds = {"c1"}
   DetailNames <- NamesNone
   Mismatches = {}
   Attrs = {}
   Fixtures = {}
-  MaxFaults = 1
-  MaxSteps = 2
-  MaxTotalSteps = 2
+  MaxFaults = 2
+  MaxSteps = 1
+  MaxTotalSteps = 1
   MaxRuns = 1
-  AllowDecor = TRUE
+  AllowDecor = FALSE
   OnExcChoices = {TRUE}
-  PreForceChoices = {TRUE}
-  XfDecChoices = {FALSE}
-  StepOps = {"addCleanup", "upcall"}
-  AllowMulti = FALSE
+  PreForceChoices = {FALSE}
+  XfDecChoices = {TRUE}
+  StepOps = {"addCleanup"}
+  AllowMulti = TRUE
   Variant = "asRequired"
   UndoOf <- MCUndoOf
   GatherOf <- MCGatherOf
